@@ -88,7 +88,36 @@ def _nt_cases(tier, rng):
     out += ["@keybits %d" % n for n in dom16()]
     return [Case(l, "", "registry") for l in out]
 
+PROPS["C12"] = dict(
+    families=[], corpus_entries=[], small_scope=[],
+    spec={"@from_name": "spec.@from_name", "@conv": "spec.@conv", "@cipher": "spec.@cipher"},
+    thorough_mult=1,
+)
+def _cipher_cases(tier, rng):
+    from vlib import Case, REPO
+    import os
+    names = [l.split(":")[1] for l in open(os.path.join(REPO, "scripts", "tls-ciphersuites.txt")) if l.count(":") >= 9]
+    out = set()
+    for n in names:
+        out.add(n)
+        for k in (range(len(n)) if tier == "thorough" else [0, 1, len(n) // 2, len(n) - 2, len(n) - 1]):
+            out.add(n[:k])
+        out.add(n.lower()); out.add(n.title()); out.add(n + "_"); out.add(n + " "); out.add(" " + n); out.add(n + "8")
+        k = rng.randrange(len(n)); c = n[k]
+        out.add(n[:k] + ("X" if c != "X" else "Y") + n[k+1:])
+        out.add(n[:k] + n[k+1:])
+        out.add(n.replace("_", "-"))
+    out.update(["", "TLS", "Unknown cipher", "TLS_", "tls_null_with_null_null"])
+    cases = ["@from_name %s" % (x.encode().hex() or "-") for x in sorted(out)]
+    # cipher ids: Display / LowerHex / Debug / conversions on every id
+    ids = range(65536) if tier == "thorough" else sorted(set(range(0, 0x200)) | set(range(0x1300, 0x1310)) | set(range(0xc000, 0xc200)) | set(range(0xcc00, 0xcd00)) | {rng.randrange(65536) for _ in range(2000)})
+    cases += ["@conv TlsCipherSuiteID %d" % i for i in ids]
+    listed = [int(l.split(":")[0], 16) for l in open(os.path.join(REPO, "scripts", "tls-ciphersuites.txt")) if l.count(":") >= 9]
+    cases += ["@cipher %d" % i for i in (range(65536) if tier == "thorough" else sorted(set(ids) | set(listed) | set(range(0, 65536, 251))))]
+    return [Case(l, "", "registry") for l in cases]
+
 def extra_cases(pid, tier, seed, rng):
+    if pid == "C12": return _cipher_cases(tier, rng)
     if pid == "C17": return _nt_cases(tier, rng)
     if pid == "C08": return _state_cells(tier, rng)
     return []
